@@ -802,7 +802,8 @@ def runCase (j : Json) : E Json := do
       | [d, .bool z] => pure ((← dtOf (← d.getStr?)), z)
       | _ => throw "bad col"
     pure (Json.mkObj [("status", "ok"), ("kind", "dtype"),
-      ("value", match Np.DT.inferDtype cols with | some d => toJson (dtName d) | none => Json.null)])
+      ("value", match Np.DT.inferDtype cols with | some d => toJson (dtName d) | none => Json.null),
+      ("nary", match Np.DT.inferDtypeN Np.DT.promoteAll cols with | some d => toJson (dtName d) | none => Json.null)])
   | _ => throw s!"bad-op {op}"
 
 def step (line : String) : String :=
